@@ -1,0 +1,20 @@
+//go:build verif
+
+package consensus
+
+import (
+	"time"
+
+	"github.com/tendermint/tendermint/types"
+)
+
+// VerifVoteTime runs State.voteTime on a state that is locked on `locked` (may be nil), has
+// `proposal` (may be nil) as the round's proposal block, and whose consensus parameters carry
+// the given TimeIotaMs.
+func VerifVoteTime(locked, proposal *types.Block, timeIotaMs int64) time.Time {
+	cs := &State{}
+	cs.LockedBlock = locked
+	cs.ProposalBlock = proposal
+	cs.state.ConsensusParams.Block.TimeIotaMs = timeIotaMs
+	return cs.voteTime()
+}
